@@ -45,6 +45,28 @@ int main(int argc, char **argv) {
     size_t maxlen = (size_t) atoi(argv[3]);
     v_open(argv[4]); v_install_crash_handlers();
     unsigned char a[256], b[256];
+    if (!strcmp(argv[2], "huge")) {
+        /* operands of 2^32 + 300 bytes (sparse mappings, read-only access): lengths and indices whose upper 32 bits matter. The
+         * operands are described, not listed: all-zero except the byte positions given in the record. */
+        size_t n = ((size_t) 1 << 32) + 300;
+        unsigned char *x = (unsigned char *) mmap(NULL, n, PROT_READ | PROT_WRITE, MAP_PRIVATE | MAP_ANONYMOUS | MAP_NORESERVE, -1, 0);
+        unsigned char *y = (unsigned char *) mmap(NULL, n, PROT_READ | PROT_WRITE, MAP_PRIVATE | MAP_ANONYMOUS | MAP_NORESERVE, -1, 0);
+        if (x == MAP_FAILED || y == MAP_FAILED) { v_close(); return 0; }
+        static const unsigned long long POS[] = { 0, 0xffffffffULL, 0x100000000ULL, 0x100000000ULL + 299 };
+        v_emit("{\"op\":\"huge\",\"fn\":\"is_zero\",\"xpos\":-1,\"ypos\":-1,\"ret\":%d}", sodium_is_zero(x, n));
+        v_emit("{\"op\":\"huge\",\"fn\":\"memcmp\",\"xpos\":-1,\"ypos\":-1,\"ret\":%d}", sodium_memcmp(x, y, n));
+        v_emit("{\"op\":\"huge\",\"fn\":\"compare\",\"xpos\":-1,\"ypos\":-1,\"ret\":%d}", sodium_compare(x, y, n));
+        for (int p = 0; p < 4; p++) { unsigned long long q = POS[p]; int qk = (int) (q >> 30) * 1000 + (int) (q & 1023);      /* position as (GiB quarter, low bits): fits an int */
+            x[q] = 1; v_emit("{\"op\":\"huge\",\"fn\":\"is_zero\",\"xpos\":%d,\"ypos\":-1,\"ret\":%d}", qk, sodium_is_zero(x, n));
+            v_emit("{\"op\":\"huge\",\"fn\":\"memcmp\",\"xpos\":%d,\"ypos\":-1,\"ret\":%d}", qk, sodium_memcmp(x, y, n));
+            v_emit("{\"op\":\"huge\",\"fn\":\"compare\",\"xpos\":%d,\"ypos\":-1,\"ret\":%d}", qk, sodium_compare(x, y, n));
+            v_emit("{\"op\":\"huge\",\"fn\":\"compare\",\"xpos\":-1,\"ypos\":%d,\"ret\":%d}", qk, sodium_compare(y, x, n));
+            x[q] = 0; }
+        /* a low difference one way, a high difference the other way: the most significant differing byte decides */
+        x[5] = 9; y[0x100000000ULL + 7] = 1;
+        v_emit("{\"op\":\"huge\",\"fn\":\"compare\",\"xpos\":5,\"ypos\":%d,\"ret\":%d}", 4 * 1000 + 7, sodium_compare(x, y, n));
+        munmap(x, n); munmap(y, n); v_close(); return 0;
+    }
     if (!strcmp(argv[2], "small")) {
         for (unsigned x = 0; x < 256; x++) for (unsigned y = 0; y < 256; y++) { a[0] = (unsigned char) x; b[0] = (unsigned char) y; cmp_all(a, b, 1, x % 16); arith_all(a, b, 1, y % 16); }
         /* all 2-byte pairs for compare/add/sub: 2^32 is too many; every pair of (hi,lo) classes: exhaustive over a x b where
